@@ -496,35 +496,55 @@ func (ms *Modules) Process() []error {
 		}
 		return mods[i].Kind() < mods[j].Kind()
 	})
-	for len(mods) > 0 {
-		var processed int
-		for i := 0; i < len(mods); {
-			m := mods[i]
-			p, s := ToEntry(m).Augment(false)
-			processed += p
-			if s == 0 {
-				mods[i] = mods[len(mods)-1]
-				mods = mods[:len(mods)-1]
-				continue
+	// augmentLoop applies the pending augments of mods until a whole pass
+	// makes no progress and returns how many it applied.  Modules with
+	// nothing left pending are dropped from mods.
+	augmentLoop := func() int {
+		applied := 0
+		for len(mods) > 0 {
+			var processed int
+			for i := 0; i < len(mods); {
+				m := mods[i]
+				p, s := ToEntry(m).Augment(false)
+				processed += p
+				if s == 0 {
+					mods[i] = mods[len(mods)-1]
+					mods = mods[:len(mods)-1]
+					continue
+				}
+				i++
 			}
-			i++
+			if processed == 0 {
+				break
+			}
+			applied += processed
 		}
-		if processed == 0 {
-			break
+		return applied
+	}
+	// fixChoice fixes up all the choice statements to add in the missing
+	// case statements.
+	fixChoice := func() {
+		for _, m := range ms.Modules {
+			ToEntry(m).FixChoice()
+		}
+		for _, m := range ms.SubModules {
+			ToEntry(m).FixChoice()
 		}
 	}
+	augmentLoop()
+	fixChoice()
 
-	// Now fix up all the choice statements to add in the missing case
-	// statements.
-	for _, m := range ms.Modules {
-		ToEntry(m).FixChoice()
-	}
-	for _, m := range ms.SubModules {
-		ToEntry(m).FixChoice()
+	// An augment whose target is the implied case of a choice only becomes
+	// applicable once that case exists.  It may in turn create the target of
+	// another pending augment, and the nodes it adds need their implied cases
+	// too: retry until nothing more can be applied, so that the outcome does
+	// not depend on the order in which the remaining modules are visited.
+	for augmentLoop() > 0 {
+		fixChoice()
 	}
 
 	// Go through any modules that have remaining augments and collect
-	// the errors.
+	// the errors (nothing that a retry could have applied is left).
 	applied := 0
 	for _, m := range mods {
 		p, _ := ToEntry(m).Augment(true)
@@ -534,12 +554,7 @@ func (ms *Modules) Process() []error {
 		// An augment whose target is the implied case of a choice only
 		// becomes applicable once that case exists; the nodes it adds need
 		// their implied cases too.
-		for _, m := range ms.Modules {
-			ToEntry(m).FixChoice()
-		}
-		for _, m := range ms.SubModules {
-			ToEntry(m).FixChoice()
-		}
+		fixChoice()
 	}
 	// Merging an augment records the errors of its body, and any name
 	// collision, on the target, which may belong to any module.
